@@ -5,8 +5,19 @@ Close Scope string_scope.
 Open Scope list_scope.
 
 Check (C10_fold_sound : forall (O : fops) (X : xops O) (e : expr O),
+  ~ Known_C10_identity O e ->
   exists e', fold O e = Some e' /\ forall env, eval O X env e' = eval O X env e).
 Check (C10_fold_sound_b64 : forall e : E,
+  ~ Known_C10_identity b64ops e ->
   exists e', fold64 e = Some e' /\ forall env, eval64 env e' = eval64 env e).
+Check (eq_refl : Known_C10_identity = fun (O : fops) (e : expr O) => identity_fires O e = true).
+Check (C10_identity_refuted :
+  let price := [112; 114; 105; 99; 101]%N in
+  let name := [110; 97; 109; 101]%N in
+  Known_C10_identity b64ops (e2 Mul (ex price) (ei 0)) /\
+  Known_C10_identity b64ops (e2 Add (ex name) (ei 0)) /\
+  run_case (e2 Mul (ex price) (ei 0)) [ev [65%N] [(price, vf 4612811918334230528)]] = "K1|F:i0|V:f0;V:i0"%string /\
+  run_case (e2 Add (ex name) (ei 0)) [ev [65%N] [(name, vs [110%N])]] = "K1|F:x[110,97,109,101]|N;V:s[110]"%string).
 Print Assumptions C10_fold_sound.
 Print Assumptions C10_fold_sound_b64.
+Print Assumptions C10_identity_refuted.
